@@ -197,16 +197,22 @@ PyIsInstance(x, cs) ==
 (***************************************************************************)
 (* Text helpers over code point sequences (ASCII).                         *)
 (***************************************************************************)
-LowerC(c) == IF c >= 65 /\ c <= 90 THEN c + 32 ELSE c
+\* str.lower(): ASCII, and the few non-ASCII characters of the universe: E-acute 201 -> 233; long s 383, sharp s 223,
+\* e-acute 233 are their own lower case (str.casefold() would map long s to "s" - the library must not use it)
+LowerC(c) == IF c >= 65 /\ c <= 90 THEN c + 32 ELSE IF c = 201 THEN 233 ELSE c
 Lower(cs) == [i \in 1..Len(cs) |-> LowerC(cs[i])]
-IsDigit(c) == c >= 48 /\ c <= 57
+\* decimal digits: ASCII, and two non-ASCII representatives that int() / float() accept: ARABIC-INDIC DIGIT THREE
+\* (1635) and FULLWIDTH DIGIT THREE (65299)
+IsDigit(c) == (c >= 48 /\ c <= 57) \/ c \in {1635, 65299}
+DigitOf(c) == IF c \in {1635, 65299} THEN 3 ELSE c - 48
 RECURSIVE SplitOn(_, _)    \* str.split(delim) for a one-character delimiter
 SplitOn(cs, d) ==
   IF \A i \in 1..Len(cs) : cs[i] # d THEN <<cs>>
   ELSE LET i == CHOOSE i \in 1..Len(cs) : cs[i] = d /\ \A j \in 1..(i - 1) : cs[j] # d
        IN <<SubSeq(cs, 1, i - 1)>> \o SplitOn(SubSeq(cs, i + 1, Len(cs)), d)
 \* the ASCII characters str.strip() and int() treat as white space: \t \n \v \f \r, FS GS RS US, space
-WhiteSpace == {9, 10, 11, 12, 13, 28, 29, 30, 31, 32}
+\* ... and two non-ASCII representatives: NO-BREAK SPACE (160), EM SPACE (8195)
+WhiteSpace == {9, 10, 11, 12, 13, 28, 29, 30, 31, 32, 160, 8195}
 RECURSIVE StripL(_)
 StripL(cs) == IF cs # <<>> /\ Head(cs) \in WhiteSpace THEN StripL(Tail(cs)) ELSE cs
 RECURSIVE StripR(_)
@@ -221,13 +227,13 @@ StartsWith(cs, p) == Len(cs) >= Len(p) /\ SubSeq(cs, 1, Len(p)) = p
 RECURSIVE DigitsVal(_, _)
 DigitsVal(ds, acc) == IF ds = <<>> THEN acc
                       ELSE IF Head(ds) = 95 THEN DigitsVal(Tail(ds), acc)
-                      ELSE DigitsVal(Tail(ds), 10 * acc + (Head(ds) - 48))
+                      ELSE DigitsVal(Tail(ds), 10 * acc + DigitOf(Head(ds)))
 DigitsOk(ds) == /\ ds # <<>>
                 /\ \A i \in 1..Len(ds) : IsDigit(ds[i]) \/ ds[i] = 95
                 /\ IsDigit(ds[1]) /\ IsDigit(ds[Len(ds)])
                 /\ \A i \in 1..(Len(ds) - 1) : ~(ds[i] = 95 /\ ds[i + 1] = 95)
 \* int() strips only \t \n \v \f \r and space (not FS GS RS US, which str.strip() does strip) - checked against CPython
-IntSpace == {9, 10, 11, 12, 13, 32}
+IntSpace == {9, 10, 11, 12, 13, 32, 160, 8195}
 RECURSIVE IStripL(_)
 IStripL(cs) == IF cs # <<>> /\ Head(cs) \in IntSpace THEN IStripL(Tail(cs)) ELSE cs
 RECURSIVE IStripR(_)
